@@ -155,7 +155,8 @@ __attribute__((constructor)) static void stub_loaded(void)
 __attribute__((visibility("default"))) void module_post_init(struct module *self)
 {
     /* like the destructor: the event names the module whose code this is (the name its own
-     * constructor was given), so that "its post-init ran" means this module's entry point */
+     * constructor was given or, without one, the name of the file this copy was loaded from),
+     * so that "its post-init ran" means this module's entry point */
     (void)self;
     ev("post-init", self_name);
 }
